@@ -177,6 +177,14 @@ class A:
             g.emit("%s %s %d" % (op, x, v))
             if op in ("add", "cadd"):
                 self.keys[x].add(v // CH)
+        elif op == "addmany" and r.random() < 0.5:
+            # a batch whose first value is already present (the chunk's first member at or after v), the rest mostly new
+            v = (self.val(x) // CH) * CH if r.random() < 0.7 else self.val(x)
+            n = r.choice([1, 3, 10])
+            g.emit("addmanyfrom %s %d %d" % (x, v, n))
+            self.keys[x] |= {k for k in range(v // CH, min(65536, v // CH + 2))} | self.keys[x]
+            self.keys[x] |= set(k for k in self.allkeys() if k >= v // CH)
+            g.count("mut:addmanyfrom")
         elif op == "addmany":
             vs = [self.val(x) for _ in range(r.choice([1, 2, 6]))]
             g.emit("addmany %s %s" % (x, " ".join(map(str, vs))))
